@@ -191,6 +191,12 @@ def psd(height, dx, window=None):
     return ux, uy, psd
 
 
+def _trapz(y, dx, axis):
+    """Trapezoidal integration; numpy >= 2 renamed trapz to trapezoid."""
+    f = getattr(np, 'trapezoid', None) or np.trapz
+    return f(y, dx=dx, axis=axis)
+
+
 def bandlimited_rms(r, psd, wllow=None, wlhigh=None, flow=None, fhigh=None):
     """Calculate the bandlimited RMS of a signal from its PSD.
 
@@ -261,10 +267,10 @@ def bandlimited_rms(r, psd, wllow=None, wlhigh=None, flow=None, fhigh=None):
     # prysm doesn't enforce the user to be "top left" or "lower left" origin,
     # abs makes sure we do things right no matter what
     dx = abs(pt2 - pt1)
-    reduced = np.trapz(work, dx=dx, axis=0)
+    reduced = _trapz(work, dx=dx, axis=0)
 
     if r.ndim == 2:
-        reduced = np.trapz(reduced, dx=dx, axis=0)
+        reduced = _trapz(reduced, dx=dx, axis=0)
 
     return np.sqrt(reduced)
 
